@@ -41,6 +41,11 @@ type Ctx struct {
 	Deadline   time.Time // internal tier budget; zero = none
 	Capped     bool
 	Triage     bool
+	// Replay is the case id of a generic replay (./check <Cnn> --replay <dir>): the check runs at
+	// the recorded tier (narrowed by VERIF_FILTER where the check supports it) and only this
+	// case is judged.
+	Replay       string
+	replayFilter bool
 }
 
 // Fail is one failing case before classification.
@@ -80,6 +85,37 @@ func Begin(prop, tier string) *Ctx {
 	if tier == "triage" {
 		c.Triage = true
 		c.Tier = getenv("VERIF_TIER", "quick")
+	}
+	if tier == "--replay" && prop != "C14" && prop != "C15" && prop != "C16" {
+		if len(os.Args) < 4 {
+			fmt.Fprintln(os.Stderr, "usage: check <Cnn> --replay <dir>")
+			os.Exit(2)
+		}
+		b, err := os.ReadFile(filepath.Join(os.Args[3], "case.json"))
+		var meta struct{ Case, Tier string }
+		if err == nil {
+			err = json.Unmarshal(b, &meta)
+		}
+		if err != nil || meta.Case == "" {
+			fmt.Fprintf(os.Stderr, "replay: cannot read %s/case.json: %v\n", os.Args[3], err)
+			os.Exit(2)
+		}
+		c.Replay = meta.Case
+		c.Tier = meta.Tier
+		if c.Tier != "thorough" {
+			c.Tier = "quick"
+		}
+		os.Setenv("VERIF_NO_EVIDENCE", "1")
+		if os.Getenv("VERIF_FILTER") == "" && os.Getenv("VERIF_REPLAY_NOFILTER") == "" {
+			// case ids may carry a verdict suffix the generators do not know: filter on the
+			// generated part (everything up to a trailing /UPPERCASE component)
+			f := meta.Case
+			if i := strings.LastIndex(f, "/"); i > 0 && f[i+1:] == strings.ToUpper(f[i+1:]) && strings.ToLower(f[i+1:]) != f[i+1:] {
+				f = f[:i]
+			}
+			os.Setenv("VERIF_FILTER", f)
+			c.replayFilter = true
+		}
 	}
 	if c.W == "" {
 		d, err := os.MkdirTemp("/dev/shm", "verif.w.")
@@ -274,6 +310,9 @@ type Coverage struct {
 func (c *Ctx) Finish(cov Coverage) {
 	c.mu.Lock()
 	defer c.mu.Unlock()
+	if c.Replay != "" {
+		c.finishReplay(cov)
+	}
 	sort.SliceStable(c.fails, func(i, j int) bool { return c.fails[i].Case < c.fails[j].Case })
 	nviol := 0
 	var triage []string
@@ -365,6 +404,38 @@ func (c *Ctx) Finish(cov Coverage) {
 	if nviol > 0 {
 		os.Exit(1)
 	}
+	os.Exit(0)
+}
+
+// finishReplay judges only the replayed case.
+func (c *Ctx) finishReplay(cov Coverage) {
+	for _, f := range c.fails {
+		if f.Case != c.Replay {
+			continue
+		}
+		if k := c.classify(f); k != nil {
+			fmt.Printf("REPLAY %s: fails again as recorded known finding %s\nKNOWN-FINDING: property=%s %s: %s (1 cases)\n", c.Replay, k.ID, c.Prop, k.ID, k.Title)
+			os.Exit(0)
+		}
+		fmt.Printf("REPLAY %s: fails again\n  %s\n", c.Replay, oneLine(f.Obs, 600))
+		fmt.Printf("VIOLATION property=%s replay=%s\n", c.Prop, os.Args[3])
+		os.Exit(1)
+	}
+	if c.replayFilter {
+		// not failing under the narrowed enumeration (the filter may not have selected the case, or
+		// the failure needs its neighbours): run the whole tier before saying so
+		cmd := exec.Command(os.Args[0], os.Args[1:]...)
+		cmd.Env = append(os.Environ(), "VERIF_REPLAY_NOFILTER=1", "VERIF_FILTER=")
+		cmd.Stdout, cmd.Stderr = os.Stdout, os.Stderr
+		if err := cmd.Run(); err != nil {
+			if ee, ok := err.(*exec.ExitError); ok {
+				os.Exit(ee.ExitCode())
+			}
+			os.Exit(2)
+		}
+		os.Exit(0)
+	}
+	fmt.Printf("REPLAY %s: does not fail on this tree (%d cases evaluated)\n", c.Replay, cov.Evaluations)
 	os.Exit(0)
 }
 
@@ -509,6 +580,22 @@ func (c *Ctx) BuildRuntime() string {
 	if b, err := exec.Command("cp", "-r", filepath.Join(c.Repo, "ferret_libs")+"/.", libs).CombinedOutput(); err != nil {
 		fmt.Fprintf(os.Stderr, "cp libs: %v\n%s\n", err, b)
 		os.Exit(2)
+	}
+	// Bundled-toolchain layout (what the repository's bootstrap installs next to the libraries:
+	// <libs>/toolchain/lib with the C start files, the loader and libgcc): the compiler then
+	// finds them by path instead of starting `gcc -print-file-name=...` six times per
+	// compilation. Process creation is the scarcest resource of this sandbox.
+	tc := filepath.Join(libs, "toolchain", "lib")
+	os.MkdirAll(tc, 0o755)
+	for _, f := range []string{"crt1.o", "crti.o", "crtn.o", "libgcc.a", "ld-linux-x86-64.so.2"} {
+		out, err := exec.Command("gcc", "-print-file-name="+f).Output()
+		p := strings.TrimSpace(string(out))
+		if err != nil || p == "" || p == f {
+			continue // not found: the compiler falls back to probing
+		}
+		if rp, err := filepath.EvalSymlinks(p); err == nil {
+			os.Symlink(rp, filepath.Join(tc, f))
+		}
 	}
 	return libs
 }
